@@ -21,7 +21,7 @@ Definition f14_trace : list label :=
     LUnsubWant 0; LUnsub 0 ].                             (* the caller returns "timeout" *)
 
 Example f14_trace_completes :
-  exists s, run BestPing false 1 w_tgt (init_state (fun _ => 5%N) (Some 0)) f14_trace = Some s /\
+  exists s, run BestPing false false 1 w_tgt (init_state (fun _ => 5%N) (Some 0)) f14_trace = Some s /\
     wpc s 0 = WDone RTimeout /\ wch s 0 = Some (0, 7%N) /\ wl s = [] /\
     readers s = 0 /\ writer s = None /\ rpc s = RIdle.
 Proof. eexists. split; [vm_compute; reflexivity|]. repeat apply conj; reflexivity. Qed.
@@ -36,13 +36,13 @@ Fixpoint publishes (c : nat) (from : N) (n : nat) : list label :=
     SetMasterHead waiting for room (holding no lock), updateBest and subscribe run
     to completion, Run takes an update and the waiting send completes ---- *)
 Example upd_trace_completes :
-  exists s, run BestPing false 1 w_tgt (init_state (fun _ => 0%N) (Some 0))
+  exists s, run BestPing false false 1 w_tgt (init_state (fun _ => 0%N) (Some 0))
               (publishes 0 1 10 ++ [LSetHead 0 11; LTick; LUpdLock; LUpdDone [(true, 1%Z)]; LTake; LPublish 0]) = Some s /\
     length (updq s) = 10 /\ pend s = [] /\ best s = Some 0 /\ writer s = None /\ rpc s = RWantR (0, 1%N).
 Proof. eexists. split; [vm_compute; reflexivity|]. repeat apply conj; reflexivity. Qed.
 
 Example sub_trace_completes :
-  exists s, run BestPing false 1 (fun _ => 100%N) (init_state (fun _ => 0%N) (Some 0))
+  exists s, run BestPing false false 1 (fun _ => 100%N) (init_state (fun _ => 0%N) (Some 0))
               ([LSetHead 0 1; LPublish 0; LTake] ++ publishes 0 2 10 ++
                [LSetHead 0 12; LSubWant 0; LSubLock 0; LSubBody 0; LRLock [0]; LSend; LRUnlock; LTake; LPublish 0]) = Some s /\
     wpc s 0 = WWait /\ wch s 0 = Some (0, 1%N) /\ pend s = [] /\ writer s = None /\ readers s = 0.
@@ -53,7 +53,7 @@ Proof. eexists. split; [vm_compute; reflexivity|]. repeat apply conj; reflexivit
     best connection must not replace it (a waiter for seqno 10 still succeeds) ---- *)
 Example switch_keeps_sufficient_head :
   exists s,
-    run BestPing false 2 w_tgt (init_state (fun _ => 1%N) (Some 0))
+    run BestPing false false 2 w_tgt (init_state (fun _ => 1%N) (Some 0))
       [LSubWant 0; LSubLock 0; LSubBody 0;
        LSetHead 0 10; LPublish 0; LTake; LRLock [0]; LSend; LRUnlock;      (* 10 from connection 0 *)
        LTick; LUpdLock; LUpdDone [(true, 5%Z); (false, 1%Z)];                       (* still 0 *)
@@ -68,7 +68,7 @@ Proof. eexists. split; [vm_compute; reflexivity|]. repeat apply conj; reflexivit
     notifies, the waiter receives 12 and returns nil; the registry is empty again *)
 Example wait_example :
   exists s,
-    run BestPing false 1 w_tgt (init_state (fun _ => 5%N) (Some 0))
+    run BestPing false false 1 w_tgt (init_state (fun _ => 5%N) (Some 0))
       [LSubWant 0; LSubLock 0; LSubBody 0; LSetHead 0 12; LPublish 0; LTake; LRLock [0]; LSend; LRUnlock;
        LRecv 0; LUnsubWant 0; LUnsub 0] = Some s /\
     wpc s 0 = WDone ROk /\ wgot s 0 = Some (0, 12%N) /\ wl s = [] /\ readers s = 0 /\ writer s = None.
@@ -81,11 +81,11 @@ Proof. eexists. split; [vm_compute; reflexivity|]. repeat apply conj; reflexivit
     the waiter stays in its loop until that connection publishes again (the
     property speaks of heads the best connection *reports*, i.e. publishes) *)
 Example switch_does_not_wake :
-  exists s, reachable BestPing false 2 w_tgt (init_state (fun c => if Nat.eqb c 1 then 20%N else 5%N) (Some 0)) s /\
+  exists s, reachable BestPing false false 2 w_tgt (init_state (fun c => if Nat.eqb c 1 then 20%N else 5%N) (Some 0)) s /\
     best s = Some 1 /\ (10 <= head s 1)%N /\ wpc s 0 = WWait /\ wch s 0 = None /\
     updq s = [] /\ pend s = [] /\ rpc s = RIdle.
 Proof.
-  destruct (run BestPing false 2 w_tgt (init_state (fun c => if Nat.eqb c 1 then 20%N else 5%N) (Some 0))
+  destruct (run BestPing false false 2 w_tgt (init_state (fun c => if Nat.eqb c 1 then 20%N else 5%N) (Some 0))
               [LSubWant 0; LSubLock 0; LSubBody 0; LTick; LUpdLock; LUpdDone [(false, 1%Z); (true, 1%Z)]]) as [s|] eqn:Hrun;
     [|vm_compute in Hrun; discriminate].
   exists s. split; [eapply run_reachable; [apply reach_init|exact Hrun]|].
@@ -97,6 +97,6 @@ Qed.
     property quantifies over pools of 1..4 connections, where it cannot happen
     (Proofs/PoolWaitP.v subscribe_never_panics) *)
 Example subscribe_without_best_panics :
-  exists s, run BestPing false 0 w_tgt (init_state (fun _ => 0%N) None) [LSubWant 0; LSubLock 0; LSubBody 0] = Some s /\
+  exists s, run BestPing false false 0 w_tgt (init_state (fun _ => 0%N) None) [LSubWant 0; LSubLock 0; LSubBody 0] = Some s /\
             wpc s 0 = WPanicked /\ writer s = None.
 Proof. eexists. split; [vm_compute; reflexivity|split; reflexivity]. Qed.
